@@ -90,6 +90,8 @@ type vfdNet struct {
 	sha     []byte         // running hash of the delivery order
 	gossips []*pdkg.GossipPacket
 	keepBundles bool
+	hold        *vfdHold
+	nHeld       atomic.Int64
 	dropFrom    map[string]string // sender address -> bundle kind that is lost on its way out ("" = none)
 	lagStop     chan struct{}
 	maxLagNs    atomic.Int64 // worst lateness of a 5 ms timer since the last reset: is this box keeping time?
@@ -256,8 +258,68 @@ func (n *vfdNet) addCounters(run *vfRun) {
 	run.Count("bundles_async_reordered", n.nAsync.Load())
 	run.Count("bundles_slow_link", n.nSlow.Load())
 	run.Count("bundles_dropped", n.nDropped.Load())
+	run.Count("deliveries_held_behind_late_execute", n.nHeld.Load())
 	run.Count("deliveries_panicked", n.nPanics.Load())
 	run.Count("deliveries_stuck_over_2s", n.nStuck.Load())
+}
+
+// vfdHold: from the moment the first Execute gossip packet towards Dest is seen, EVERYTHING towards Dest (control
+// gossip and DKG bundles) is parked in one FIFO; after Delay the queue is flushed in order and the link is normal
+// again. The senders' calls return at once. This is a late link, not a lossy one: the node gets the execute packet
+// after the kick-off time and then everything that was sent to it meanwhile, in the order it was sent.
+type vfdHold struct {
+	Dest     string
+	Delay    time.Duration
+	started  bool
+	released bool
+	queue    []func()
+}
+
+func (n *vfdNet) setHold(dest string, d time.Duration) {
+	n.mu.Lock()
+	n.hold = &vfdHold{Dest: dest, Delay: d}
+	n.mu.Unlock()
+}
+
+func (n *vfdNet) clearHold() {
+	n.mu.Lock()
+	n.hold = nil
+	n.mu.Unlock()
+}
+
+// maybeHold parks the delivery when the hold applies; returns true when it did.
+func (n *vfdNet) maybeHold(dst string, isExecute bool, deliver func()) bool {
+	n.mu.Lock()
+	defer n.mu.Unlock()
+	h := n.hold
+	if h == nil || h.Dest != dst || h.released {
+		return false
+	}
+	if !h.started {
+		if !isExecute {
+			return false
+		}
+		h.started = true
+		n.inflight.Add(1)
+		time.AfterFunc(h.Delay, func() {
+			defer n.inflight.Add(-1)
+			for {
+				n.mu.Lock()
+				if len(h.queue) == 0 {
+					h.released = true
+					n.mu.Unlock()
+					return
+				}
+				f := h.queue[0]
+				h.queue = h.queue[1:]
+				n.mu.Unlock()
+				f()
+			}
+		})
+	}
+	h.queue = append(h.queue, deliver)
+	n.nHeld.Add(1)
+	return true
 }
 
 // begin marks a delivery as in flight; the returned func ends it. A delivery that has not returned after 2 s is
@@ -411,6 +473,24 @@ func (c *vfdClient) Packet(_ context.Context, p net.Peer, packet *pdkg.GossipPac
 	if packet != nil && packet.Metadata != nil {
 		pkey = c.from + "|" + dst + "|" + hex.EncodeToString(packet.Metadata.Signature)
 	}
+	if dest != nil && !dest.broken.Load() && packet != nil {
+		cph := proto.Clone(packet).(*pdkg.GossipPacket)
+		if n.maybeHold(dst, packet.GetExecute() != nil, func() {
+			if dest.closed.Load() {
+				return
+			}
+			n.mu.Lock()
+			n.note("gh:"+packetName(cph), c.from, dst)
+			n.mu.Unlock()
+			n.nGossip.Add(1)
+			_ = n.guard("gossip:"+packetName(cph), dst, func() error {
+				_, e := dest.proc.Packet(context.Background(), cph)
+				return e
+			})
+		}) {
+			return &pdkg.EmptyDKGResponse{}, nil
+		}
+	}
 	if delay > 0 {
 		n.nDelayed.Add(1)
 		vfdSleepMs(delay)
@@ -554,6 +634,12 @@ func (c *vfdClient) BroadcastDKG(_ context.Context, p net.Peer, in *pdkg.DKGPack
 			}
 		}
 		return err
+	}
+	if n.maybeHold(dst, false, func() {
+		sent = time.Now() // latency of a parked bundle counts from its release
+		_ = deliver("bh:", 0)
+	}) {
+		return &pdkg.EmptyDKGResponse{}, nil
 	}
 	if dup {
 		n.nDup.Add(1)
@@ -844,6 +930,7 @@ type vfdWrite struct {
 	ArgState  Status
 	ArgEpoch  uint32
 	Arg       *DBState // the object handed to the store (only valid inside onWrite)
+	At        time.Time // when the write had returned from the real store
 	Err       error
 	CurBefore []byte
 	FinBefore []byte
@@ -884,6 +971,7 @@ func (s *vfdStoreTap) write(id string, st *DBState, finished bool) error {
 	} else {
 		w.Err = s.inner.SaveCurrent(id, st)
 	}
+	w.At = time.Now()
 	w.CurAfter, w.FinAfter = vfdRaw(s.inner, id)
 	s.seq++
 	w.Seq = s.seq
@@ -897,6 +985,19 @@ func (s *vfdStoreTap) write(id string, st *DBState, finished bool) error {
 
 func (s *vfdStoreTap) SaveCurrent(id string, st *DBState) error  { return s.write(id, st, false) }
 func (s *vfdStoreTap) SaveFinished(id string, st *DBState) error { return s.write(id, st, true) }
+
+// finishedAt: the instant at which the node's successful SaveFinished of `epoch` returned (zero when none).
+func (s *vfdStoreTap) finishedAt(epoch uint32) time.Time {
+	s.mu.Lock()
+	defer s.mu.Unlock()
+	var at time.Time
+	for _, w := range s.writes {
+		if w.Finished && w.Err == nil && w.ArgEpoch == epoch && w.ArgState == Complete {
+			at = w.At
+		}
+	}
+	return at
+}
 
 func (s *vfdStoreTap) seqNow() int {
 	s.mu.Lock()
